@@ -23,7 +23,13 @@ def fracs(W):
 
 
 def gen(R, n):
-    kind = R.rng.randrange(5)
+    kind = R.rng.randrange(6)
+    if kind == 5:     # sparse but feasible: a hidden perfect assignment plus a few extra acceptable pairs, wide integer values
+        hidden = list(range(n))
+        R.rng.shuffle(hidden)
+        dens = R.rng.choice([0.15, 0.25, 0.4])
+        W = [[(R.rng.choice([0, 0, 1, 3, 10, 10, 7]) if (hidden[i] == j or R.rng.random() < dens) else None) for j in range(n)] for i in range(n)]
+        return W, "sparse_feasible_wide"
     if kind == 0:     # integers with zeros
         W = [[R.rng.randint(0, 4) for _ in range(n)] for _ in range(n)]
     elif kind == 1:   # generic floats
